@@ -463,11 +463,15 @@ func tryReplay(eng *Engine, o *Obligation, info map[string]any, repo string) boo
 	// replay adapters: inputs whose meaning is hidden behind an assumed (extern) contract are
 	// replaced by a concrete valid instance, see /verif/replay/adapters.json
 	var adapters map[string]struct {
-		Inputs map[string]string `json:"inputs"`
-		Why    string            `json:"why"`
+		Inputs  map[string]string `json:"inputs"`
+		Why     string            `json:"why"`
+		Imports []string          `json:"imports"`
 	}
 	readJSON(filepath.Join(verifRoot, "replay", "adapters.json"), &adapters)
 	if ad, ok := adapters[u.name]; ok {
+		for _, imp := range ad.Imports {
+			x.imports[imp] = true
+		}
 		for i, in := range u.inputs {
 			if lit, ok := ad.Inputs[in.Name]; ok {
 				argLits[i] = lit
